@@ -17,8 +17,9 @@ RECEIVERS = [
 
 ARGS = ["undefined", "null", "NaN", "Infinity", "-Infinity", "-0", "0", "1", "-1", "2", "2147483648", "4294967296", "9007199254740993",
         "1e21", "0.5", "-1.5", "'5'", "'x'", "''", "true", "({})", "[]", "[1, 2]", "(function () {})",
-        "({valueOf: function () { return 2; }})", "({toString: function () { throw new Error('ts'); }})", "/r/g", "'\\ud800'", "100000"]
-ARGS_SMALL = ["undefined", "NaN", "-1", "1e21", "'x'", "({})"]
+        "({valueOf: function () { return 2; }})", "({toString: function () { throw new Error('ts'); }})", "/r/g", "'\\ud800'", "100000",
+        "new ArrayBuffer(16)", "new Uint8Array(4)", "8"]
+ARGS_SMALL = ["undefined", "NaN", "-1", "1e21", "'x'", "({})", "2", "8"]
 
 
 def candidate_names():
